@@ -463,12 +463,62 @@ fn exec_write(built: &Built, via_enum: bool, script: &[Ev]) -> WriteRun {
 
 fn timing_eq(t: Timing, r: u32, y: u32, e: u32) -> bool { t.refresh == r && t.retry == y && t.expire == e }
 
+/// By-value and derived accessors of the variable-length PDUs must agree with
+/// the by-reference ones (which `check_fields` compares with the description).
+fn accessor_sweep(b: &Built) -> Result<(), String> {
+    match b {
+        Built::Key(p) => {
+            let info = p.clone().into_key_info();
+            if info != *p.key_info() { return Err("RouterKey::into_key_info differs from key_info()".into()) }
+            if info.clone().into_bytes().as_ref() != p.key_info().as_slice() { return Err("RouterKeyInfo::into_bytes differs from as_slice()".into()) }
+        }
+        Built::Aspa(p) => {
+            let pr = p.clone().into_providers();
+            if pr != *p.providers() { return Err("Aspa::into_providers differs from providers()".into()) }
+            let n = p.providers().iter().count();
+            match rpki_verif::guard(|| p.providers().asn_count()) {
+                Ok(c) => if c as usize != n { return Err(format!("ProviderAsns::asn_count() = {c}, iter() yields {n}")) },
+                Err(m) => return Err(format!("ProviderAsns::asn_count() panics on a PDU the reader accepted ({n} providers): {m}")),
+            }
+            if p.providers().is_empty() != (n == 0) || p.providers().len() != 4 * n { return Err("ProviderAsns::len/is_empty disagree with iter()".into()) }
+        }
+        _ => {}
+    }
+    Ok(())
+}
+
+/// The ways a user sees item and action must agree with each other.
+fn item_sweep(p: &pdu::Payload, action: Action, item: &Payload, flags: u8) -> Result<(), String> {
+    use rpki::rtr::payload::{Afi, PayloadType};
+    if action.is_withdraw() == action.is_announce() || action.is_announce() != (flags & 1 == 1)
+        || Action::from_flags(action.into_flags()) != action || action != Action::from_flags(flags) {
+        return Err(format!("Action accessors disagree for flags {flags:#x}: {action:?}"))
+    }
+    let ty = item.payload_type();
+    let by_accessor = (item.to_origin().is_some(), item.as_router_key().is_some(), item.as_aspa().is_some());
+    let by_type = (ty == PayloadType::Origin, ty == PayloadType::RouterKey, ty == PayloadType::Aspa);
+    let by_pdu = (matches!(p, pdu::Payload::V4(_) | pdu::Payload::V6(_)), matches!(p, pdu::Payload::RouterKey(_)), matches!(p, pdu::Payload::Aspa(_)));
+    if by_accessor != by_type || by_type != by_pdu { return Err(format!("payload_type() {ty:?} disagrees with the variant accessors / the PDU type")) }
+    if item.as_ref() != item.clone().as_ref() || Payload::from(item.clone()) != *item { return Err("Payload::as_ref / clone disagree".into()) }
+    if let Some(o) = item.to_origin() {
+        let v4 = matches!(p, pdu::Payload::V4(_));
+        if o.is_v4() != v4 || o.prefix.addr().is_ipv4() != v4 { return Err(format!("RouteOrigin::is_v4() = {} for a type-{} PDU", o.is_v4(), if v4 { 4 } else { 6 })) }
+        let afi = if o.is_v4() { Afi::ipv4() } else { Afi::ipv6() };
+        if afi.is_ipv4() != v4 || afi.is_ipv6() == v4 || Afi::from_u8(afi.into_u8()) != afi { return Err("Afi accessors disagree with RouteOrigin::is_v4".into()) }
+    }
+    if let Some(a) = item.as_aspa() {
+        if a.key() != a.customer || a.withdraw().key() != a.key() || !a.withdraw().providers.is_empty() { return Err("Aspa::key / withdraw disagree with customer".into()) }
+    }
+    Ok(())
+}
+
 /// Accessor-level comparison of a read value with the description it was built from.
 fn check_fields(val: &Val, got: &Got) -> Result<(), String> {
     let bad = |what: &str| Err(format!("{what} differs: read {got:?}"));
     match (val, got) {
         (_, Got::Pdu(b)) => {
             if *b != val.build() { return bad("value (library equality)") }
+            accessor_sweep(b)?;
             match (val, b) {
                 (Val::SerialNotify { v, session, .. }, Built::SerialNotify(p)) => if p.version() != *v || p.session() != *session { return bad("version/session") },
                 (Val::SerialQuery { v, session, .. }, Built::SerialQuery(p)) => if p.version() != *v || p.session() != *session { return bad("version/session") },
@@ -513,6 +563,7 @@ fn check_fields(val: &Val, got: &Got) -> Result<(), String> {
             if let Some((action, item)) = expected_payload(val) {
                 match p.to_payload() {
                     Ok((a, it)) => {
+                        item_sweep(p, a, &it, flags)?;
                         if a != action { return Err(format!("action differs: {a:?} for flags {flags:#x}")) }
                         let same = it == item;
                         // a withdrawn ASPA is reported by customer only (documented: empty provider set)
@@ -543,12 +594,25 @@ fn check_fields(val: &Val, got: &Got) -> Result<(), String> {
 //------------ the client as a reader ----------------------------------------
 
 #[derive(Default)]
-struct Tgt { reset: bool, applied: Vec<(bool, Vec<(Action, Payload)>, (u32, u32, u32))> }
+struct Tgt { reset: bool, applied: Vec<(bool, Vec<(Action, Payload)>, (u32, u32, u32))>, fail_with: Option<PayloadError> }
+
+/// Which of the client's entry points runs the exchange.
+#[derive(Clone, Copy, Debug, PartialEq, Eq)]
+enum How { Step, New, Run }
+
+/// How the client is driven: entry point, an error the target's `apply`
+/// returns (the client then reports it with `send_error` itself), an error
+/// reported through `Client::send_error` after the step.
+#[derive(Clone, Copy, Debug)]
+struct CMode { how: How, fail: Option<PayloadError>, send: Option<PayloadError> }
+
+impl CMode { const STEP: CMode = CMode { how: How::Step, fail: None, send: None }; }
 
 impl PayloadTarget for Tgt {
     type Update = Vec<(Action, Payload)>;
     fn start(&mut self, reset: bool) -> Self::Update { self.reset = reset; Vec::new() }
     fn apply(&mut self, update: Self::Update, timing: Timing) -> Result<(), PayloadError> {
+        if let Some(e) = self.fail_with { return Err(e) }
         self.applied.push((self.reset, update, (timing.refresh, timing.retry, timing.expire)));
         Ok(())
     }
@@ -573,12 +637,21 @@ struct ClientRun {
 /// One `Client::step` (reset query if `state` is None, else serial query)
 /// against the scripted reply stream.
 fn exec_client(init_v: u8, state: Option<(u16, u32)>, stream: &[u8], script: &[Ev]) -> ClientRun {
+    exec_client_mode(CMode::STEP, init_v, state, stream, script)
+}
+
+/// The same through `Client::new` (initial version 2) or `Client::run`
+/// (steps until the stream ends), with optional error reporting.
+fn exec_client_mode(mode: CMode, init_v: u8, state: Option<(u16, u32)>, stream: &[u8], script: &[Ev]) -> ClientRun {
     SCHED.with(|s| s.borrow().run(async {
         let (sock, ctl) = sock_pair();
         let t0 = tokio::time::Instant::now();
         let h = tokio::spawn(async move {
-            let mut client = Client::with_initial_version(init_v, sock, Tgt::default(), state.map(|(s, n)| st(s, n)));
-            let res = client.step().await.map_err(|e| err_text(&e));
+            let tgt = Tgt { fail_with: mode.fail, ..Default::default() };
+            let mut client = if mode.how == How::New { Client::new(sock, tgt, state.map(|(s, n)| st(s, n))) }
+                else { Client::with_initial_version(init_v, sock, tgt, state.map(|(s, n)| st(s, n))) };
+            let mut res = if mode.how == How::Run { client.run().await } else { client.step().await }.map_err(|e| err_text(&e));
+            if let (Ok(()), Some(e)) = (&res, mode.send) { res = client.send_error(e).await.map_err(|e| err_text(&e)) }
             let state = client.state().map(|s| (s.session(), s.serial().0));
             (res, std::mem::take(&mut client.target_mut().applied), state, rtr_sched::sim_elapsed(t0).as_secs())
         });
